@@ -32,7 +32,8 @@ META = {
 }
 
 TEST_FRAMES = ["8D406B902015A678D4D220AA4BDA", "8D4840D6202CC371C32CE0576098", "A0001838CA3E51F0A8000047A36A",
-               "A800292DFFBBA9383FFCEB903D01", "5D484BA898F8C6", "2A00516D492B80", "20001718029FCD", "28001A1B1D8FF2"]
+               "A800292DFFBBA9383FFCEB903D01", "5D484FDEA248F5", "2A00516D492B80", "20001718029FCD", "28001A1B1D8FF2",
+               "5D484BA898F8C6"]        # index 4: DF11 all-call reply with an interrogator code in the parity (remainder != 0)
 
 
 def items(tier, seed):
@@ -114,8 +115,8 @@ def run_item(item):
         rd.noise_floor = 1e6
         out = rd._process_buffer()
         return [m[0] for m in out]
-    paths = item.explore(run, maxpaths=5000)
-    for p in paths:
+    def handle(p):
+        """obligation of one path, discharged as soon as the path is found (a reproduced violation ends the exploration)"""
         claim = p.kind == "ret" and p.value == frames
 
         def replay(model):
@@ -130,6 +131,8 @@ def run_item(item):
         if p.kind == "ret" and item.validated < 3:
             item.validate(p, lambda c: H.real_driver("rtl_process", {"buffer": c["buffer"]}),
                           lambda m: {"buffer": [float(H.frac_of_z3(m.eval(v, model_completion=True))) for _, v in kinds]})
+        return bool(item.violations)
+    item.explore(run, maxpaths=5000, on_path=handle)
     item.sat_witness("reach", [])
 
 
@@ -142,6 +145,15 @@ def run_check_msg(item, pm):
     """the demodulator never admits a DF17 frame whose checksum is non-zero (all 112 bits symbolic)"""
     import pyModeS.extra.rtlreader as R
     item.encoded("pyModeS.extra.rtlreader.RtlReader._check_msg", "pyModeS.py_common.crc")
+    # every DF20/21 (112-bit) and DF4/5/11 (56-bit) frame is admitted whatever its other bits are (their parity field is
+    # overlaid with an address / interrogator code, so it is not checked)
+    for dfv, nb in ((20, 112), (21, 112), (4, 56), (5, 56), (11, 56)):
+        fx = H.Frame([("DF", 5, dfv), ("REST", nb - 5)], prefix="x%d_" % dfv, case="upper")
+        item.declare(fx)
+        rdx = object.__new__(R.RtlReader)
+        H.decide(item, "admit-df%d" % dfv, lambda: rdx._check_msg(fx.msg),
+                 lambda c: H.real_driver("rtl_check_msg", c["msg"]), lambda m, fx=fx: {"msg": fx.concrete(m)},
+                 lambda k, v: k == "ret" and (v is True or (isinstance(v, core.SymBool) and v.t)))
     fr = H.Frame([("DF", 5, 17), ("REST", 107)], case="upper")
     item.declare(fr)
     rd = object.__new__(R.RtlReader)
